@@ -73,8 +73,9 @@ def checkSeq : Rd Verdict := do
   match specCheck interp A S states P pc nv with
   | some (cl, msg) => return specFail (base ++ "/spec/" ++ cl) msg feats
   | none => pure ()
-  if interp ≤ 1 && nv ≤ 1 then
-    let m := if interp == 0 then direct states A S else modClassical (fun (x : Float) => x.abs < 1e-16) states A S
+  if nv ≤ 1 then
+    let m := if interp == 0 then direct states A S else if interp == 1 then modClassical (fun (x : Float) => x.abs < 1e-16) states A S
+             else extended (fun (x : Float) => x.abs < 1e-16) states A S
     if !closeRows (canon m) (canon P) then return diff (base ++ "/weights") s!"impl={repr (canon P)} model={repr (canon m)} states={showList states}" feats
   return ok feats
 
